@@ -22,7 +22,10 @@
 #include <fcppt/optional/object_impl.hpp>
 #include <fcppt/tuple/make.hpp>
 
+#include <cmath>
 #include <cstdint>
+#include <cstdio>
+#include <set>
 #include <limits>
 #include <type_traits>
 #include <vector>
@@ -160,11 +163,28 @@ enum class e32_4 : std::uint32_t { a, b, c, d, fcppt_maximum = d };
 enum class eint_2 { a, b, fcppt_maximum = b };
 enum class e8_200 : std::uint8_t { first = 0, fcppt_maximum = 199 };
 enum class e64_3 : std::uint64_t { a, b, c, fcppt_maximum = c };
+// sizes around the ranges of the 8- and 16-bit value types (the size does not fit the value type)
+enum class e16_255 : std::uint16_t { first = 0, fcppt_maximum = 254 };
+enum class e16_256 : std::uint16_t { first = 0, fcppt_maximum = 255 };
+enum class e16_257 : std::uint16_t { first = 0, fcppt_maximum = 256 };
+enum class e16_300 : std::uint16_t { first = 0, fcppt_maximum = 299 };
+enum class e16_512 : std::uint16_t { first = 0, fcppt_maximum = 511 };
+enum class e32_65535 : std::uint32_t { first = 0, fcppt_maximum = 65534 };
+enum class e32_65536 : std::uint32_t { first = 0, fcppt_maximum = 65535 };
+enum class e32_65537 : std::uint32_t { first = 0, fcppt_maximum = 65536 };
+enum class e32_70000 : std::uint32_t { first = 0, fcppt_maximum = 69999 };
+enum class e64_2p32 : std::uint64_t { first = 0, fcppt_maximum = 4294967295ULL };
+enum class e64_2p32p1 : std::uint64_t { first = 0, fcppt_maximum = 4294967296ULL };
 
 template <class E, class V> void from_int_pair(char const *ename, i128 size)
 {
   static std::string const name = std::string("from_int<") + ename + ">(" + tname<V>::v + ")";
-  for (V v : domain<V>())
+  std::vector<V> dom = domain<V>();
+  for (i128 d = -3; d <= 3; ++d) // the values around the enum's size, whatever the width of V
+    for (i128 base : {size, size / 2, size + 256, size + 65536, size + (i128(1) << 32)})
+      if (fits<V>(base + d))
+        dom.push_back(static_cast<V>(base + d));
+  for (V v : dom)
   {
     if (!vrt::begin(name.c_str(), v))
       continue;
@@ -194,6 +214,61 @@ template <class E> void from_int_enum(char const *ename, i128 size)
   from_int_pair<E, u16>(ename, size);
   from_int_pair<E, u32>(ename, size);
   from_int_pair<E, u64>(ename, size);
+}
+
+// ------------------------------------------------------------ floating-point mod
+// math::mod<F> is documented as std::fmod: the exact remainder with the sign of the dividend.  Every
+// operand here is a multiple of 1/4 with magnitude below 2^120, so the exact result is
+// ((4|a|) mod (4b)) / 4 in 128-bit integer arithmetic (always representable, as fmod's result is).
+using u128 = unsigned __int128;
+template <class F> std::vector<F> float_domain()
+{
+  std::set<F> s;
+  for (int i = 0; i <= 260; ++i)
+    s.insert(static_cast<F>(i) / 4);
+  for (int k = 7; k <= 118; ++k)
+  {
+    F const p = std::ldexp(F(1), k);
+    for (F v : {p, std::nextafter(p, F(0)), std::nextafter(p, std::numeric_limits<F>::infinity()), p - 1, p + 1, p + std::ldexp(F(1), k - 1), p * F(1.25)})
+      if (v * 4 == std::floor(v * 4))
+        s.insert(v);
+  }
+  for (F v : {F(1e3), F(1e6), F(1e9), F(1e12), F(1e15), F(1e17), F(1e18), F(1e19), F(3e20), F(7e22), F(16777216), F(16777217), F(9007199254740992.0), F(9007199254740993.0)})
+    if (v * 4 == std::floor(v * 4))
+      s.insert(v);
+  return std::vector<F>(s.begin(), s.end());
+}
+template <class F> void float_mod(char const *tn)
+{
+  std::string const n = std::string("mod<") + tn + ">";
+  auto const dom = float_domain<F>();
+  vrt::info("float_mod_domain_" + std::string(tn), std::to_string(dom.size()));
+  for (F a0 : dom)
+    for (int sign = 0; sign < 2; ++sign)
+      for (F b : dom)
+      {
+        F const a = sign ? -a0 : a0;
+        if (sign && a0 == 0)
+          continue;
+        if (!vrt::begin_text(n.c_str(), [&] {
+              char buf[128];
+              std::snprintf(buf, sizeof buf, "%s(%.21Lg, %.21Lg)", n.c_str(), static_cast<long double>(a), static_cast<long double>(b));
+              return std::string(buf);
+            }()))
+          continue;
+        auto const r = fcppt::math::mod(a, b);
+        if (b == 0)
+        {
+          VRT_CHECK(!r.has_value(), n + ":zero", "mod by zero returned a value");
+          continue;
+        }
+        u128 const A = static_cast<u128>(a0 * 4), B = static_cast<u128>(b * 4);
+        F const want = (sign ? -1 : 1) * (static_cast<F>(A % B) / 4);
+        vrt::nontrivial(a0 / b > std::ldexp(F(1), std::numeric_limits<F>::digits));
+        vrt::maybe_sample();
+        VRT_CHECK(r.has_value() && r.get_unsafe() == want, n + ":wrong", "got %.21Lg, exact remainder %.21Lg",
+                  static_cast<long double>(r.has_value() ? r.get_unsafe() : F(-1)), static_cast<long double>(want));
+      }
 }
 
 // ------------------------------------------------------------ unary helpers
@@ -540,7 +615,20 @@ int main(int argc, char **argv)
     from_int_enum<eint_2>("eint_2", 2);
     from_int_enum<e8_200>("e8_200", 200);
     from_int_enum<e64_3>("e64_3", 3);
+    from_int_enum<e16_255>("e16_255", 255);
+    from_int_enum<e16_256>("e16_256", 256);
+    from_int_enum<e16_257>("e16_257", 257);
+    from_int_enum<e16_300>("e16_300", 300);
+    from_int_enum<e16_512>("e16_512", 512);
+    from_int_enum<e32_65535>("e32_65535", 65535);
+    from_int_enum<e32_65536>("e32_65536", 65536);
+    from_int_enum<e32_65537>("e32_65537", 65537);
+    from_int_enum<e32_70000>("e32_70000", 70000);
+    from_int_enum<e64_2p32>("e64_2p32", i128(1) << 32);
+    from_int_enum<e64_2p32p1>("e64_2p32p1", (i128(1) << 32) + 1);
   });
+  vrt::shard("float_mod_double", [] { float_mod<double>("double"); });
+  vrt::shard("float_mod_float", [] { float_mod<float>("float"); });
   vrt::shard("unary", [] {
     unary_unsigned<u8>();
     unary_unsigned<u16>();
